@@ -16,6 +16,7 @@ KINDS = [
     ('defense_enabled', dict(kind='defense', ttc=fn('Enabled'), tags=('suppress',))),
     ('defense_disabled', dict(kind='defense', ttc=fn('Disabled'))),
     ('defense_bernoulli', dict(kind='defense', ttc=fn('Bernoulli', 0.5))),
+    ('defense_alternating', dict(kind='defense', ttc='alternate')),
     ('exist', dict(kind='exist', requires=[F('outs')], ttc=None)),
     ('notexist', dict(kind='notExist', requires=[F('ins')], tags=('tagx',))),
 ]
@@ -234,7 +235,7 @@ def job_sem(job):
 
 def run(tier, seed):
     res = common.Result(PROP, tier, seed, 'model_checking')
-    res.rule = ('part A: every INH inheritance shape x 8 step kinds x models (type sequences N<=2, defense values, '
+    res.rule = ('part A: every INH inheritance shape x 9 step kinds x models (type sequences N<=2, defense values, '
                 'and on a language subset every name/id combination incl. rename collisions); part B: exist/notExist '
                 'steps whose requirement is every well-typed expression up to the operator bound x every SEM model '
                 'up to the bound; a state is one generated graph; non-trivial nodes = defense/existence nodes')
